@@ -29,6 +29,18 @@ class Ctx(object):
     def msg(self):
         return self.pool[self.rng.randrange(len(self.pool))]
 
+    def opt(self, key, gen, p_new=0.45):
+        """Per-run pool of option values (salts, nonces, rates, output lengths, bit lengths per
+        message ...): values are re-used across calls and across twin/cousin siblings, so that
+        'the same option again' and 'the same option on another object' both happen often."""
+        pools = self.info.setdefault("optpool", {})
+        k = str(key)
+        pl = pools.setdefault(k, [])
+        if not pl or (len(pl) < 3 and self.rng.random() < p_new):
+            pl.append(gen())
+            return pl[-1]
+        return pl[self.rng.randrange(len(pl))]
+
     def call(self, c, name, args=(), kw=None, cls=CHK, tag=None, obj=None, **extra):
         f = dict(k="call", obj=self.obj if obj is None else obj, name=name, args=list(args),
                  kw=kw or {}, cls=cls, tag=tag or name, kind=self.kind)
@@ -84,11 +96,11 @@ def hash_ops(has_bitlen=True, has_salt=False, update=True):
             m = x.msg()
             if len(m) == 0:
                 m = b"\xa5"
-            x.call(c, "__call__", [B(m)], {"bitlen": _bitlen_for(x.rng, m)}, tag="call_bitlen")
+            x.call(c, "__call__", [B(m)], {"bitlen": x.opt(("bl", m.hex()), lambda: _bitlen_for(x.rng, m))}, tag="call_bitlen")
         ops["call_bitlen"] = (CHK, call_bitlen)
     if has_salt:
         def call_salt(x, c):
-            x.call(c, "__call__", [B(x.msg())], {"s": x.rng.getrandbits(4 * x.info["w"] * 8)},
+            x.call(c, "__call__", [B(x.msg())], {"s": x.opt("s", lambda: x.rng.getrandbits(4 * x.info["w"] * 8))},
                    tag="call_salt")
         ops["call_salt"] = (CHK, call_salt)
     if update:
@@ -153,7 +165,7 @@ def blake2_ops():
     ops["initstate"] = (HIST, initstate)
 
     def call_outlen(x, c):
-        x.call(c, "__call__", [B(x.msg())], {"outlen": x.rng.randint(1, x.info["w"] * 8 - 1)},
+        x.call(c, "__call__", [B(x.msg())], {"outlen": x.opt("outlen", lambda: x.rng.randint(1, x.info["w"] * 8 - 1))},
                tag="call_outlen")
     ops["call_outlen"] = (CHK, call_outlen)
 
@@ -161,14 +173,14 @@ def blake2_ops():
         l = x.info["w"] * 2
         kw = {}
         if x.rng.random() < 0.7:
-            kw["salt"] = B(rbytes(x.rng, l))
+            kw["salt"] = x.opt("salt", lambda: B(rbytes(x.rng, l)))
         if x.rng.random() < 0.5 or not kw:
-            kw["pers"] = B(rbytes(x.rng, l))
+            kw["pers"] = x.opt("pers", lambda: B(rbytes(x.rng, l)))
         x.call(c, "__call__", [B(x.msg())], kw, tag="call_salt")
     ops["call_salt"] = (CHK, call_salt)
 
     def call_keylen(x, c):
-        x.call(c, "__call__", [B(x.msg())], {"keylen": x.rng.randint(1, x.info["w"] * 8)},
+        x.call(c, "__call__", [B(x.msg())], {"keylen": x.opt("keylen", lambda: x.rng.randint(1, x.info["w"] * 8))},
                tag="call_keylen")
     ops["call_keylen"] = (CHK, call_keylen)
 
@@ -220,14 +232,14 @@ def keccak_ops(sha3=False):
 
     def call_bitlen(x, c):
         m = x.msg() or b"\x5a"
-        x.call(c, "__call__", [B(m)], {"bitlen": _bitlen_for(x.rng, m)}, tag="call_bitlen")
+        x.call(c, "__call__", [B(m)], {"bitlen": x.opt(("bl", m.hex()), lambda: _bitlen_for(x.rng, m))}, tag="call_bitlen")
     ops["call_bitlen"] = (CHK, call_bitlen)
 
     def call_r(x, c):
         b = x.info["b"]
         cands = [r for r in (8, 40, 72, 136, 144, 256, 576, 832, 1024, 1088, 1152, 1344, 1336)
                  if r < b and r != x.info["r"]]
-        kw = {"r": x.rng.choice(cands)}
+        kw = {"r": x.opt("r", lambda: x.rng.choice(cands))}
         m = x.msg()
         if m and x.rng.random() < 0.3:
             kw["bitlen"] = _bitlen_for(x.rng, m)
@@ -271,7 +283,7 @@ def skein_ops():
 
     def call_bitlen(x, c):
         m = x.msg() or b"\xc3"
-        x.call(c, "__call__", [B(m)], {"bitlen": _bitlen_for(x.rng, m)}, tag="call_bitlen")
+        x.call(c, "__call__", [B(m)], {"bitlen": x.opt(("bl", m.hex()), lambda: _bitlen_for(x.rng, m))}, tag="call_bitlen")
     if True:
         ops["call_bitlen"] = (CHK, call_bitlen)
 
@@ -309,7 +321,7 @@ def ubi_ops():
 
     def call_bitlen(x, c):
         m = x.msg() or b"\xc3"
-        x.call(c, "__call__", [B(m)], {"bitlen": _bitlen_for(x.rng, m)}, tag="call_bitlen")
+        x.call(c, "__call__", [B(m)], {"bitlen": x.opt(("bl", m.hex()), lambda: _bitlen_for(x.rng, m))}, tag="call_bitlen")
     ops["call_bitlen"] = (CHK, call_bitlen)
 
     def iter_part(x, c):
@@ -548,7 +560,7 @@ def stream_ops():
     ops = {}
 
     def nonce(x):
-        return {"bits": [x.rng.getrandbits(64) if x.rng.random() < 0.8 else 0, 64]}
+        return x.opt("nonce", lambda: {"bits": [x.rng.getrandbits(64) if x.rng.random() < 0.8 else 0, 64]})
 
     def enc(x, c):
         v = nonce(x)
@@ -778,8 +790,19 @@ def _cinfo(rng, bb):
     return {"bb": bb, "pool": [a, b, bytes(bb), rbytes(rng, bb)]}
 
 
+def _structured_key(rng, n):
+    """mostly random keys; sometimes a short secret zero-padded to the key size, or all-zero"""
+    v = rng.random()
+    if v < 0.7:
+        return rbytes(rng, n)
+    if v < 0.9:
+        m = rng.choice([4, 8, 16]) if n > 16 else rng.choice([4, 8])
+        return rbytes(rng, min(m, n)) + bytes(n - min(m, n))
+    return bytes(n)
+
+
 def mk_aes(rng, pb, px):
-    return pb.obj({"kind": "AES", "key": B(rbytes(rng, rng.choice([16, 24, 32])))}), _cinfo(rng, 16)
+    return pb.obj({"kind": "AES", "key": B(_structured_key(rng, rng.choice([16, 24, 32])))}), _cinfo(rng, 16)
 
 
 def mk_des(rng, pb, px):
@@ -1070,9 +1093,13 @@ def _cz_threefish(rng, rec, info):
 
 
 def _cz_aes(rng, rec, info):
+    # the related key of another size: truncated, zero-extended or repeated
     k = bytes.fromhex(rec["key"]["b"])
     n = _other(rng, len(k), [16, 24, 32])
-    rec["key"] = B((k + k)[:n])
+    if n > len(k) and rng.random() < 0.6:
+        rec["key"] = B(k + bytes(n - len(k)))
+    else:
+        rec["key"] = B((k + k)[:n])
 
 
 COUSIN = {
